@@ -2,18 +2,32 @@ package kessoku
 
 import (
 	"errors"
+	"go/token"
 	"go/types"
 	"strings"
 )
 
-// verifTyp is a token type: NewGraph/detectCycles touch types only through
-// String() (map keys, diagnostics).
-type verifTyp struct{ name string }
+// Type tokens are real go/types types (pointer to a named struct). Tokens 0 and 1 have the
+// same type name and the same package *name* but different package paths (the
+// text/template vs html/template situation); the others live in one further package.
+var verifTypNames = [...]string{"TA", "TA", "TC", "TD", "TE"}
 
-func (t *verifTyp) Underlying() types.Type { return t }
-func (t *verifTyp) String() string         { return t.name }
+var verifTypPkgs = [...][2]string{{"example.com/a/model", "model"}, {"example.com/b/model", "model"}, {"example.com/u", "u"}, {"example.com/u", "u"}, {"example.com/u", "u"}}
 
-var verifTypNames = [...]string{"TA", "TB", "TC", "TD", "TE"}
+func verifTokens(n int) []types.Type {
+	pkgs := map[string]*types.Package{}
+	out := make([]types.Type, n)
+	for i := range out {
+		pp := verifTypPkgs[i]
+		pkg := pkgs[pp[0]]
+		if pkg == nil {
+			pkg = types.NewPackage(pp[0], pp[1])
+			pkgs[pp[0]] = pkg
+		}
+		out[i] = types.NewPointer(types.NewNamed(types.NewTypeName(token.NoPos, pkg, verifTypNames[i], nil), types.NewStruct(nil, nil), nil))
+	}
+	return out
+}
 
 // verifHarnessDetectCycles: the real detectCycles on every relation over n
 // nodes (self-loops and parallel edges included); complete and sound, and the
@@ -21,8 +35,9 @@ var verifTypNames = [...]string{"TA", "TB", "TC", "TD", "TE"}
 func verifHarnessDetectCycles(n int, parallel bool) {
 	g := &Graph{edges: make(map[*node][]*edgeNode), reverseEdges: make(map[*node][]*node)}
 	nodes := make([]*node, n)
+	dtoks := verifTokens(n)
 	for i := range nodes {
-		nodes[i] = &node{providerSpec: &ProviderSpec{Provides: [][]types.Type{{&verifTyp{name: verifTypNames[i]}}}}}
+		nodes[i] = &node{providerSpec: &ProviderSpec{Provides: [][]types.Type{{dtoks[i]}}}}
 		g.nodes = append(g.nodes, nodes[i])
 	}
 	adj := make([][]bool, n)
@@ -100,10 +115,7 @@ func verifHarnessDetectCycles(n int, parallel bool) {
 // requirement subset, or Struct expansions with 1..2 fields), any requested
 // token, all requirements supplied. Refused iff the reference says so.
 func verifHarnessNewGraph(np, nt int) {
-	toks := make([]types.Type, nt)
-	for i := range toks {
-		toks[i] = &verifTyp{name: verifTypNames[i]}
-	}
+	toks := verifTokens(nt)
 	type rp struct {
 		isStruct bool
 		src      int
